@@ -141,6 +141,25 @@ def tstallOp : List String → String
     | _, _ => "BADLINE"
   | l => if l.getLast? == some "PANIC" then propfail "panic" else "BADLINE"
 
+/-- `late <T ms> | obs;obs nconn seen`: the peer answers the end of data of the first message only after 1.5 x T. The
+    blocking client gives up at T; the connection is then out of step with the peer and must not carry another send:
+    the second send goes to a new connection and its result is the reply to its own end of data. -/
+def lateOp : List String → String
+  | [tms, res, _nconn, seen] =>
+    if res == "PANIC" then propfail "panic" else
+    match tms.toNat?, (res.splitOn ";").mapM parseObs with
+    | some t, some [o1, o2] =>
+      if o1.result.startsWith "ok" then propfail "send-reported-success-although-the-reply-came-after-the-timeout"
+      else if o1.elapsed > 4 * t + 1500 then propfail "send-returned-late"
+      else if o1.timeoutFlag != "t" then propfail "timeout-error-does-not-identify-itself-as-timeout"
+      else if !o2.result.startsWith "ok" then propfail s!"send-after-a-timed-out-one-failed:{o2.result}"
+      else if o2.result != s!"ok:250:{toHexField (str "second-ok")}" then propfail "reply-to-another-command-taken-for-the-answer"
+      else if seen != "-" && !(seen.splitOn ",").all (fun x => x == "QUIT" || x == "Z") then
+        propfail s!"connection-used-after-its-send-timed-out:{seen}"
+      else "ok"
+    | _, _ => "BADLINE"
+  | l => if l.getLast? == some "PANIC" then propfail "panic" else "BADLINE"
+
 /-- `shut slowquit <client> | t1 t2 t3 r3 quitseen r0` and `shut atreturn <client> <k> | k idle quits eofs` (C09: what
     holds at the moment `shutdown` returns, and its promptness) -/
 def shutOp : List String → String
